@@ -117,20 +117,13 @@
 //@head{
     requires verif_self.states@.len() == 0, verif_self.num_free_blocks >= 1, into_lawful(patvals), into_items(patvals).len() < usize::MAX
     ensures match r {
-        Ok(pma) => {
-            &&& pats_valid(into_items(patvals))
-            &&& pma.match_kind == verif_self.match_kind
-            // the automaton satisfies the precondition of every search entry point (C07, C13 ranking, C01-C05 refinement chain)
-            &&& automaton_ok(pma, lm_of(verif_self.match_kind))
-            // C15: num_states is the number of trie states without the dead state
-            &&& exists|n: NfaBuilder<u8, V>| trie_ok(n) && reach_ok(n) && seen_is(n, into_items(patvals), into_items(patvals).len() as int)
-                    && #[trigger] n.states@.len() == pma.num_states + 1 && pma.states@.len() >= n.states@.len()
-                    // C06 / C01 / C02 / C05 end to end (standard kind, relative to the assumed contract of the fail/output passes):
-                    // the trie n records the patterns with their values, and the streams the three standard iterators refine equal
-                    // the property-level semantics over n
-                    && values_are(n, into_items(patvals), into_items(patvals).len() as int)
-                    && (verif_self.match_kind is Standard ==> searches_ok(pma.states@, pma.outputs@, n))
-        },
+        // Ok: the collection is valid; the automaton satisfies the precondition of every search entry point (bw_wf + outs_ok:
+        // C07, C13 ranking, refinement chain of C01-C05); num_states + 1 == number of states of a trie n whose states >= 2 are
+        // exactly the non-empty prefixes of the registered patterns, and the array is at least that long (C15); registered
+        // patterns carry the value of their pair (C06); standard kind: the streams the three standard iterators refine equal
+        // the property-level semantics over n (C01, C02, C05; relative to the assumed contract of the fail/output passes)
+        Ok(pma) => pma.match_kind == verif_self.match_kind
+            && bwv_post(pma.states@, pma.outputs@, pma.num_states, into_items(patvals), verif_self.match_kind),
         Err(e) => match e {
             DaachorseError::InvalidArgument => into_items(patvals).len() == 0 || has_empty(into_items(patvals)) || has_huge(into_items(patvals)),
             DaachorseError::DuplicatePattern => has_dup(into_items(patvals)),
@@ -144,17 +137,9 @@
 //@}
 //@before 1 Ok(DoubleArrayAhoCorasick {{
     proof {
-        let st = verif_me.states@;
-        let idmap = choose|idmap: Seq<u32>| bw_built(st, nfa, idmap);
-        assert(da_safe(st));
-        lemma_encodes_gives_wf(nfa, st, idmap, lm_of(verif_self.match_kind));
-        lemma_built_outs_ok(st, nfa, idmap);
-        lemma_slots_at_least_states(st, nfa, idmap);
-        if verif_self.match_kind is Standard { lemma_searches_ok(nfa, st, idmap); }
-        assert(bw_wf(st, lm_of(verif_self.match_kind)));
-        assert(outs_ok(st, nfa.outputs@));
+        assert(da_safe(verif_me.states@));
         assert(verif_me.match_kind == verif_self.match_kind);
-        assert(nfa.states@.len() == num_states + 1);
+        lemma_bwv_post(nfa, verif_me.states@, num_states, into_items(patvals), verif_self.match_kind);
     }
 //@}
 //@endimpl
